@@ -66,7 +66,9 @@ pub fn write_all_ways(obj: &InMemDicomObject, ts_k: u8) -> [String; 3] {
 
 /// object for a case: path A (constructors) or path B (consistent explicit lengths, via the
 /// reference encoder + dicom-rs reader in the same syntax)
-pub fn case_object(r: &mut Rng, ts_k: u8, depth: u32) -> (InMemDicomObject, &'static str) {
+/// `Err((syntax, generated nodes, bytes))`: the real reader did not accept the independent reference
+/// encoding of the generated data set (never on a correct reader; reported, not silently replaced by path A)
+pub fn case_object(r: &mut Rng, ts_k: u8, depth: u32) -> Result<(InMemDicomObject, &'static str), (u8, Vec<Node>, Vec<u8>)> {
     let path_b = r.chance(1, 3);
     // (a zero-length fragment does not survive reading, so explicit lengths read back would be stale)
     let o = GenOpts { max_depth: depth, empty_frags: !path_b, ..Default::default() };
@@ -85,11 +87,12 @@ pub fn case_object(r: &mut Rng, ts_k: u8, depth: u32) -> (InMemDicomObject, &'st
         let enc_ts = if ts_k == 3 { 1 } else { ts_k };
         let bytes = ref_encode(&nodes, enc_ts, &explicit, 0);
         // read with the uncompressed syntax (Deflated = Explicit VR LE after inflation)
-        if let Ok(obj) = InMemDicomObject::read_dataset_with_ts(&bytes[..], ts_of(enc_ts)) {
-            return (obj, "B");
-        }
+        return match catch(std::panic::AssertUnwindSafe(|| InMemDicomObject::read_dataset_with_ts(&bytes[..], ts_of(enc_ts)))) {
+            Ok(Ok(obj)) => Ok((obj, "B")),
+            _ => Err((enc_ts, nodes, bytes)),
+        };
     }
-    (to_object(&nodes), "A")
+    Ok((to_object(&nodes), "A"))
 }
 
 /// fixed witness (index 0): Explicit VR LE, a sequence whose first item holds an encapsulated Pixel Data
